@@ -245,7 +245,8 @@ class C13(Scenario):
             "indices), checked after every call against a reference map; distinct = distinct call-sequence+fault digests; non-trivial = a fault fired or a pre-emption was taken")
     level_text = ("Reference-model refinement under fault enumeration: after every call the emitters reported equal the model's watch set (one per key, alive iff running) and a unique "
                   "marker queued through each emitter reaches exactly the model's handler set; a schedule() that raised changes nothing.")
-    level_note = "call sequences are sampled (not all sequences up to the bound); the failing construction position cycles through all positions of each sampled sequence"
+    level_note = ("quick: call sequences are sampled and the failing construction position cycles through all positions of each sampled sequence; thorough: first all 24 410 (sequence, fault) "
+                  "combinations of length <= 4 over 2 watches x 2 handlers (every construction position x {constructor, start} failure), then sampled longer ones")
     assumptions = ApiScenario.assumptions
 
     def gen_case(self, seed, tier, idx):
@@ -450,7 +451,84 @@ class C13(Scenario):
 
         def finish(sim, verdict):
             v = hang_violations("C13", verdict) + uncaught_violations("C13", sim) + found
-            return v, {"sample": {"ops": case["ops"], "faults": case["fault_positions"], "calls": [(c["op"], c["args"], c.get("exc")) for c in run.hist["calls"]]}, "extra": stats,
+            return v, {"sample": {"ops": case["ops"], "faults": case["fault_positions"], "calls": [(c["op"], c["args"], c.get("exc")) for c in run.hist["calls"]]}, "extra": dict(stats, enumerated_sequences=1 if case.get("enumerated") else 0),
                        "nontrivial": bool(case["fault_positions"]), "hist_key": key_of([case["ops"], case["fault_positions"], case["specs"]])}
 
         return self.simulate(case, sched_seed, trace, run.install, main, finish)
+
+
+# ---------------------------------------------------------------------------- C13 exhaustive small scope
+_ENUM13 = {}
+ENUM13_SPECS = [["/w/p0", True, 0], ["/w/p0", True, 1]]  # same path and flag, different filter: two distinct watches
+
+
+def enum_c13(max_len=4):
+    """Every API call sequence of length <= max_len from the valid domain over 2 watches x 2 handlers, each with no
+    fault and with a constructor / start failure at every emitter construction it performs."""
+    if max_len in _ENUM13:
+        return _ENUM13[max_len]
+    out = []
+
+    def rec(ops, model, started, constructs):
+        if ops:
+            out.append((list(ops), {}))
+            for ci in range(constructs):
+                for kind in ("ctor", "start"):
+                    out.append((list(ops), {str(ci): kind}))
+        if len(ops) == max_len:
+            return
+        cands = []
+        for s in range(2):
+            for h in range(2):
+                cands.append(["schedule", h, s])
+                if s in model:
+                    cands.append(["add_handler", h, s])
+                    if h in model[s]:
+                        cands.append(["remove_handler", h, s])
+            if s in model:
+                cands.append(["unschedule", s])
+        cands.append(["unschedule_all"])
+        if not started:
+            cands.append(["start"])
+        for op in cands:
+            m2 = {k: set(v) for k, v in model.items()}
+            st, c2 = started, constructs
+            k = op[0]
+            if k == "schedule":
+                if op[2] not in m2:
+                    c2 += 1
+                m2.setdefault(op[2], set()).add(op[1])
+            elif k == "unschedule":
+                del m2[op[1]]
+            elif k == "add_handler":
+                m2[op[2]].add(op[1])
+            elif k == "remove_handler":
+                m2[op[2]].discard(op[1])
+            elif k == "unschedule_all":
+                m2.clear()
+            elif k == "start":
+                st = True
+            ops.append(op)
+            rec(ops, m2, st, c2)
+            ops.pop()
+
+    rec([], {}, False, 0)
+    _ENUM13[max_len] = out
+    return out
+
+
+_c13_gen = C13.gen_case
+
+
+def _c13_gen_case(self, seed, tier, idx):
+    if tier == "thorough":
+        en = enum_c13(4)
+        if idx < len(en):
+            ops, faults = en[idx]
+            cfg = random.Random(f"{seed}:cfg")
+            sched = draw_sched(cfg, line=True, pct_k=300, step_cap=150_000, horizon=600, pct_share=0.2)
+            return {"specs": [list(s) for s in ENUM13_SPECS], "handlers": 2, "ops": [list(o) for o in ops], "fault_positions": dict(faults), "scripts": {}, "hscripts": [], "sched": sched, "enumerated": True}
+    return _c13_gen(self, seed, tier, idx)
+
+
+C13.gen_case = _c13_gen_case
